@@ -126,7 +126,10 @@ type ChainOpts struct {
 	Accounts      []Account // if set, used instead of deriving NumAccounts accounts from Seed
 	Seed          []byte    // key-derivation seed
 	Balance       int64     // per-account balance of the bond denom (default 1e14)
-	ExtraCoins    sdk.Coins
+	// BalanceCoins, when > 0, replaces Balance by that many whole coins of 1e18 base units each (real-chain scale: ordinary
+	// amounts then exceed int64)
+	BalanceCoins int64
+	ExtraCoins   sdk.Coins
 	// GenesisMutator may edit the genesis map before InitChain.
 	GenesisMutator func(a *app.Teleport, g map[string]json.RawMessage)
 	Start          time.Time
@@ -189,7 +192,11 @@ func NewChain(chainID string, o ChainOpts) *Chain {
 		}
 		accts = append(accts, a)
 		genAccs = append(genAccs, authtypes.NewBaseAccount(a.Acc, a.Priv.PubKey(), 0, 0))
-		coins := sdk.NewCoins(sdk.NewCoin(sdk.DefaultBondDenom, sdk.NewInt(o.Balance))).Add(o.ExtraCoins...)
+		bal := sdk.NewInt(o.Balance)
+		if o.BalanceCoins > 0 {
+			bal = sdk.NewIntWithDecimal(o.BalanceCoins, 18)
+		}
+		coins := sdk.NewCoins(sdk.NewCoin(sdk.DefaultBondDenom, bal)).Add(o.ExtraCoins...)
 		balances = append(balances, banktypes.Balance{Address: a.Acc.String(), Coins: coins})
 	}
 
